@@ -242,3 +242,24 @@ func seedFromEnv() int {
 	fmt.Sscanf(os.Getenv("VERIF_SEED"), "%d", &n)
 	return n
 }
+
+// importObligations runs another property's rules in a sub-context and copies the obligations of one of its
+// rules (those accepted by pick) into r, prefixed with the rule they come from: a clause two properties share
+// is decided by one piece of analysis and reported under both.
+func importObligations(c *Ctx, r *Rule, run func(*Ctx), ruleID string, pick func(key string) bool) {
+	sub := &Ctx{W: c.W, Prop: c.Prop, Tier: c.Tier, known: c.known, Sub: true}
+	run(sub)
+	for _, sr := range sub.Rules {
+		if sr.ID != ruleID {
+			continue
+		}
+		for _, o := range sr.Obls {
+			if pick == nil || pick(o.Key) {
+				o2 := *o
+				o2.Rule = r.ID
+				o2.Key = sr.ID + "/" + o.Key
+				r.Obls = append(r.Obls, &o2)
+			}
+		}
+	}
+}
